@@ -14,11 +14,19 @@ import copy, json, os, subprocess, sys, tempfile
 ROOT = os.path.dirname(os.path.dirname(os.path.abspath(__file__)))
 HARNESS = os.path.join(ROOT, "harness", "target", "debug", "cao-verif-harness")
 THEORIES = os.path.join(ROOT, "coq", "theories")
-TMP = tempfile.mkdtemp(prefix="c01red")
+import threading
+from concurrent.futures import ThreadPoolExecutor
+_tl = threading.local()
+
+
+def tmpdir():
+    if not hasattr(_tl, "d"):
+        _tl.d = tempfile.mkdtemp(prefix="c01red")
+    return _tl.d
 
 
 def run_case(m):
-    p = os.path.join(TMP, "m.json")
+    p = os.path.join(tmpdir(), "m.json")
     json.dump(m, open(p, "w"))
     r = subprocess.run([HARNESS, "c01-case", p], stdout=subprocess.PIPE, stderr=subprocess.PIPE, text=True, timeout=60)
     return r.returncode, r.stdout
@@ -34,9 +42,9 @@ def pred_code(code):
         rc, out = run_case(m)
         if rc != 0:
             return False
-        v = os.path.join(TMP, "c.v")
+        v = os.path.join(tmpdir(), "c.v")
         open(v, "w").write(out)
-        r = subprocess.run(["coqc", "-noglob", "-Q", THEORIES, "Cao", "c.v"], cwd=TMP, stdout=subprocess.PIPE,
+        r = subprocess.run(["coqc", "-noglob", "-Q", THEORIES, "Cao", "c.v"], cwd=tmpdir(), stdout=subprocess.PIPE,
                            stderr=subprocess.STDOUT, text=True, timeout=300)
         flat = " ".join(r.stdout.split())
         return ("(1%%N, %d%%N)" % code) in flat
@@ -176,22 +184,30 @@ def main():
     pred = pred_segv if mode == "segv" else pred_code(int(mode[4:]))
     m = json.load(open(src))
     assert pred(m), "the predicate does not hold on the input"
-    progress = True
-    while progress:
-        progress = False
-        for c in candidates(m):
-            if size(c) >= size(m):
-                continue
-            try:
-                ok = pred(c)
-            except Exception:
-                ok = False
-            if ok:
-                m = c
+    def safe(c):
+        try:
+            return pred(c)
+        except Exception:
+            return False
+    par = int(os.environ.get("C01_RED_PAR", "10"))
+    pos, since_success = 0, 0
+    with ThreadPoolExecutor(max_workers=par) as ex:
+        while True:
+            cands = [c for c in candidates(m) if size(c) < size(m)]
+            if not cands or since_success >= len(cands):
+                break
+            pos %= len(cands)
+            batch = [cands[(pos + i) % len(cands)] for i in range(min(par, len(cands)))]
+            res = list(ex.map(safe, batch))
+            good = [c for c, ok in zip(batch, res) if ok]
+            if good:
+                m = min(good, key=size)
                 json.dump(m, open(dst, "w"), indent=1)
                 print("size", size(m), file=sys.stderr, flush=True)
-                progress = True
-                break
+                since_success = 0
+            else:
+                pos += len(batch)
+                since_success += len(batch)
     json.dump(m, open(dst, "w"), indent=1)
     print("done, size", size(m), file=sys.stderr)
 
